@@ -16,6 +16,7 @@ package cmd
 
 import (
 	"context"
+	"fmt"
 
 	"github.com/google/gce-tcb-verifier/rotate"
 	"github.com/spf13/cobra"
@@ -35,10 +36,11 @@ func wipeoutBase() CommandComponent {
 func makeWipeoutCmd(ctx context.Context, app *AppComponents) *cobra.Command {
 	cmp := Compose(app.Global, wipeoutBase(), app.Wipeout)
 	cmd := &cobra.Command{
-		Use: "wipeout [flags] ['ca'|'keys']",
+		Use: "wipeout [flags] ['ca'|'keys'|'all']",
 		Long: `Destroys all managed keys and certificates.
 
-If given literal arguments 'ca' or 'keys', then just wipes out certs or keys respectively.
+If given literal arguments 'ca' or 'keys', then just wipes out certs or keys respectively. No
+argument, or 'all', wipes out both.
 `,
 		PersistentPreRunE: cmp.PersistentPreRunE,
 		RunE: func(cmd *cobra.Command, args []string) error {
@@ -50,11 +52,22 @@ If given literal arguments 'ca' or 'keys', then just wipes out certs or keys res
 			if err != nil {
 				return err
 			}
-			if len(args) == 0 || args[0] == "ca" {
-				wc.CA = true
+			target := "all"
+			if len(args) > 1 {
+				return fmt.Errorf("wipeout takes at most one of 'ca', 'keys' or 'all', got %q", args)
 			}
-			if len(args) == 0 || args[0] == "keys" {
+			if len(args) == 1 {
+				target = args[0]
+			}
+			switch target {
+			case "all":
+				wc.CA, wc.Keys = true, true
+			case "ca":
+				wc.CA = true
+			case "keys":
 				wc.Keys = true
+			default:
+				return fmt.Errorf("unknown wipeout target %q, want 'ca', 'keys' or 'all'", target)
 			}
 			return rotate.Wipeout(ctx)
 		},
